@@ -1049,6 +1049,8 @@ def default_ops(s):
         if m is None:
             if coll == "c2":
                 ops.append(("mkcalendar", "c2"))
+                if "mkcol" in cfg.features:
+                    ops.append(("mkcol", "c2"))  # a plain collection: no .xandikos file yet
                 if names and bods:
                     ops.append(("put", "c2", names[0], bods[0]))
                     ops.append(("delete", "c2", names[0]))
@@ -1066,6 +1068,7 @@ def default_ops(s):
         if coll == "c2":
             ops.append(("delcoll", "c2"))
             ops.append(("mkcalendar", "c2"))
+            ops.append(("mkcol", "c2"))
         for pk, vals in cfg.props.get(coll, {}).items():
             for v in vals:
                 ops.append(("proppatch", coll, pk, v))
